@@ -445,11 +445,14 @@ pub fn histories(prop: &str, tier: &str, f: &mut dyn FnMut(Vec<Sess>)) {
     }
     // length 3.  quick: a sub-alphabet with one session of every query and of every mode, plus
     // the timed-out solve_all in first position; thorough: everything with at most one slow session
+    let small: Vec<Sess> = {
+        let pick = [(0, Mode::NextOne), (0, Mode::NextAll), (0, Mode::SolveAll), (1, Mode::Solve), (2, Mode::NextAll), (3, Mode::SolveAll), (4, Mode::NextOne), (5, Mode::Solve), (6, Mode::NextAll), (6, Mode::SolveAll), (7, Mode::Solve)];
+        pick.iter().map(|(q, m)| Sess { q: *q, mode: *m }).collect()
+    };
     let sub: Vec<Sess> = if thorough {
         al.clone()
     } else {
-        let pick = [(0, Mode::NextOne), (0, Mode::NextAll), (0, Mode::SolveAll), (1, Mode::Solve), (2, Mode::NextAll), (3, Mode::SolveAll), (4, Mode::NextOne), (5, Mode::Solve), (6, Mode::NextAll), (6, Mode::SolveAll), (7, Mode::Solve)];
-        let mut v: Vec<Sess> = pick.iter().map(|(q, m)| Sess { q: *q, mode: *m }).collect();
+        let mut v = small.clone();
         v.push(Sess { q: queries().len() - 1, mode: Mode::SolveAll });
         v
     };
@@ -465,10 +468,12 @@ pub fn histories(prop: &str, tier: &str, f: &mut dyn FnMut(Vec<Sess>)) {
         }
     }
     if thorough {
-        for a in &fast {
-            for b in &fast {
-                for c in &fast {
-                    for d in &fast {
+        // length 4 over the sub-alphabet (one session of every query and of every mode)
+        let _ = &fast;
+        for a in &small {
+            for b in &small {
+                for c in &small {
+                    for d in &small {
                         f(vec![*a, *b, *c, *d]);
                     }
                 }
